@@ -231,9 +231,17 @@ def static_check():
 
 # ---- dynamic part: evaluated inside simulated runs ----------------------------------
 
+def is_corrupt(w, name):
+    """An injected bit inversion makes that table's file corrupt for the rest
+    of the run (stored corruption does not heal).  Loads of a corrupt table may
+    fail - zip CRCs catch most inversions, a few in the zip directory silently
+    drop a member - but may never return numbers different from the reference."""
+    return (name + ".npz") in w.corrupt
+
+
 def check_load(w, cl, rec, op, status, val):
     kind, exp = expected(op["loader"], op["name"])
-    faulted = bool(cl.fired)
+    faulted = bool(cl.fired) or is_corrupt(w, op["name"])
     w.probe("loads")
     if status == "ok":
         if kind != "ok":
@@ -276,7 +284,7 @@ def peek_cache(w, cl, rec):
     for name in list(cache):
         mat = cache[name]
         r = ref.get(name)
-        if r is None or not isinstance(mat, dict):
+        if r is None or not isinstance(mat, dict) or is_corrupt(w, name):
             continue
         for k, b in r.items():
             a = mat.get(k)
@@ -352,6 +360,9 @@ def final_loads(w):
             try:
                 v = call[ld](nm)
             except Exception as e:  # noqa
+                if is_corrupt(w, nm):
+                    w.probe("corrupt_table_unloadable")
+                    continue
                 w.violation("T5-recovery", None, "end of run, faults stopped: %s(%r) raises %s: %s"
                             % (ld, nm, type(e).__name__, str(e)[:120]))
                 continue
